@@ -375,8 +375,11 @@ def selftest(prop, seed):
             open(fp, "w").write(txt.replace(old, new, 1))
             env = dict(os.environ); env["PAMS_REPO"] = d; env["PYVC_RLIMIT1"] = "4000000"; env["PYVC_RLIMIT2"] = "4000000"; env["PYVC_CVC5_S"] = "5"
             res_path = os.path.join(d, "result.json")
-            p = subprocess.run([sys.executable, "-m", "pyvc.run", "--run-tasks", ",".join(tids), res_path], env=env, cwd=VERIF, capture_output=True, text=True, timeout=3600)
+            p = subprocess.run([sys.executable, "-m", "pyvc.run", "--run-tasks", ";;".join(tids), res_path], env=env, cwd=VERIF, capture_output=True, text=True, timeout=3600)
             summ = json.load(open(res_path)) if os.path.exists(res_path) else {}
+            if set(summ) != set(tids):
+                entry.update(applied=True, caught=False, note="self-test run did not complete: " + (p.stderr or "")[-300:].replace("\n", " / "))
+                out.append(entry); continue
             caught = any(v["status"] != "ok" or v["not_discharged"] for v in summ.values())
             entry.update(applied=True, caught=caught, failing=[n for v in summ.values() for n in v["not_discharged"]][:4], engine_refused=[v["error"][:120] for v in summ.values() if v["status"] != "ok"])
         finally:
@@ -387,7 +390,7 @@ def selftest(prop, seed):
 
 def main(argv):
     if len(argv) >= 3 and argv[0] == "--run-tasks":
-        return run_tasks_only(argv[1].split(","), argv[2])
+        return run_tasks_only(argv[1].split(";;"), argv[2])
     if len(argv) >= 2 and argv[0] == "--replay":
         rec = json.load(open(argv[1]))
         w = rec.get("witness") or {}
